@@ -120,6 +120,137 @@ impl Bitmap {
 
 //------------ One run ----------------------------------------------------------
 
+//------------ Wall-clock watchdog ---------------------------------------------
+//
+// The run-away guards of the stubs (poll budgets, reads after end of stream)
+// catch busy loops that touch a seam. A loop that never touches one - e.g. a
+// parser spinning on an event it keeps getting without reading - would hang a
+// worker for ever. Last resort: a detached thread watches how long every run
+// has been executing in wall-clock time (normal runs take micro- to
+// milliseconds, the heaviest a few seconds); a run over the limit is reported
+// as a `hang` violation with a replay file that regenerates the run from
+// (seed, run index), and the process exits 1. The limit is not part of any
+// oracle decision inside a run.
+
+pub struct WatchMeta {
+    pub property: String,
+    pub scenario: String,
+    pub seed: u64,
+    pub tier: &'static str,
+    /// Replay file to point to when the stuck run is not a generated one
+    /// (a shrink candidate or a replay).
+    pub fallback: Option<PathBuf>,
+}
+
+struct WatchSlot {
+    /// Milliseconds since `T0` at which the current run began (0 = idle).
+    started_ms: AtomicU64,
+    /// Index of the generated run, `u64::MAX` for shrink candidates / replays.
+    run_index: AtomicU64,
+    sweep_len: AtomicU64,
+    meta: Mutex<Option<WatchMeta>>,
+}
+
+static SLOTS: Mutex<Vec<std::sync::Arc<WatchSlot>>> = Mutex::new(Vec::new());
+static T0: std::sync::OnceLock<Instant> = std::sync::OnceLock::new();
+
+thread_local! {
+    static MY_SLOT: std::sync::Arc<WatchSlot> = {
+        let slot = std::sync::Arc::new(WatchSlot {
+            started_ms: AtomicU64::new(0),
+            run_index: AtomicU64::new(u64::MAX),
+            sweep_len: AtomicU64::new(0),
+            meta: Mutex::new(None),
+        });
+        SLOTS.lock().unwrap().push(slot.clone());
+        slot
+    };
+}
+
+fn now_ms() -> u64 {
+    T0.get_or_init(Instant::now).elapsed().as_millis() as u64 + 1
+}
+
+pub fn watch_set_meta(meta: WatchMeta, sweep_len: u64) {
+    MY_SLOT.with(|s| {
+        *s.meta.lock().unwrap() = Some(meta);
+        s.sweep_len.store(sweep_len, Ordering::SeqCst);
+        s.run_index.store(u64::MAX, Ordering::SeqCst);
+    });
+}
+
+pub fn watch_set_run_index(idx: Option<u64>) {
+    MY_SLOT.with(|s| s.run_index.store(idx.unwrap_or(u64::MAX), Ordering::SeqCst));
+}
+
+fn wall_limit_ms() -> u64 {
+    std::env::var("VERIF_RUN_WALL_LIMIT_S").ok().and_then(|v| v.parse::<u64>().ok()).unwrap_or(300) * 1000
+}
+
+/// Starts the detached watchdog thread (once per process).
+pub fn start_watchdog() {
+    static STARTED: std::sync::atomic::AtomicBool = std::sync::atomic::AtomicBool::new(false);
+    if STARTED.swap(true, Ordering::SeqCst) {
+        return;
+    }
+    let _ = now_ms();
+    let limit = wall_limit_ms();
+    std::thread::spawn(move || loop {
+        std::thread::sleep(Duration::from_millis(500));
+        let now = now_ms();
+        let slots: Vec<std::sync::Arc<WatchSlot>> = SLOTS.lock().unwrap().clone();
+        for slot in slots {
+            let started = slot.started_ms.load(Ordering::SeqCst);
+            if started == 0 || now.saturating_sub(started) < limit {
+                continue;
+            }
+            let meta = slot.meta.lock().unwrap();
+            let idx = slot.run_index.load(Ordering::SeqCst);
+            let detail = format!(
+                "a run has been executing for more than {} s of wall-clock time without finishing and without tripping a run-away guard of the simulated streams: the code under test loops without touching its input or output",
+                limit / 1000
+            );
+            match meta.as_ref() {
+                Some(m) => {
+                    let dir = verif_dir();
+                    let path = if idx != u64::MAX {
+                        let sweep_len = slot.sweep_len.load(Ordering::SeqCst);
+                        let path = dir.join("replays").join(format!("{}-{}-{}.json", m.property, m.seed, idx));
+                        let _ = std::fs::create_dir_all(dir.join("replays"));
+                        let doc = json!({
+                            "property": m.property,
+                            "scenario": m.scenario,
+                            "seed": m.seed,
+                            "tier": m.tier,
+                            "run_index": idx,
+                            "sweep_index": if idx < sweep_len { json!(idx) } else { Value::Null },
+                            "from_seed": true,
+                            "tape": Value::Null,
+                            "violation": { "class": "hang", "key": "wall-clock", "detail": detail },
+                            "log": [],
+                            "note": "not minimised: the run cannot be interrupted; replay regenerates the tape from (seed, run index)",
+                        });
+                        let _ = std::fs::write(&path, serde_json::to_string_pretty(&doc).unwrap());
+                        path
+                    } else {
+                        m.fallback.clone().unwrap_or_else(|| dir.join("replays").join("unknown.json"))
+                    };
+                    println!("violation in run {}: hang:wall-clock -- {}", if idx == u64::MAX { "(replay or shrink candidate)".to_string() } else { idx.to_string() }, detail);
+                    println!("  => hang:wall-clock: {}", detail);
+                    println!("VIOLATION property={} replay={}", m.property, path.display());
+                }
+                None => {
+                    eprintln!("HARNESS ERROR: a run outside any check hangs");
+                    std::process::exit(2);
+                }
+            }
+            use std::io::Write;
+            let _ = std::io::stdout().flush();
+            std::process::exit(1);
+        }
+    });
+}
+
 pub fn scenario_salt(s: &dyn Scenario) -> u64 {
     crate::common::fnv(s.id().as_bytes())
 }
@@ -139,7 +270,9 @@ pub fn run_guarded(s: &dyn Scenario, kind: RunKind, tier: Tier, tape: Tape, log:
     let _ = crate::exec::take_harness_fails();
     let _ = crate::exec::take_panics();
     crate::exec::set_in_run(true);
+    MY_SLOT.with(|slot| slot.started_ms.store(now_ms(), Ordering::SeqCst));
     let res = catch_unwind(AssertUnwindSafe(|| s.run(kind, tier, tape, log)));
+    MY_SLOT.with(|slot| slot.started_ms.store(0, Ordering::SeqCst));
     crate::exec::set_in_run(false);
     let fails = crate::exec::take_harness_fails();
     match res {
@@ -201,10 +334,19 @@ pub fn check(s: &dyn Scenario, opts: &CheckOpts) -> i32 {
     let totals: Mutex<Totals> = Mutex::new(Totals::default());
     let salt = scenario_salt(s);
 
+    start_watchdog();
+    let meta_for = |fallback: Option<PathBuf>| WatchMeta {
+        property: s.id().to_string(),
+        scenario: s.name().to_string(),
+        seed: opts.seed,
+        tier: opts.tier.name(),
+        fallback,
+    };
     std::thread::scope(|scope| {
         for _ in 0..opts.jobs {
             scope.spawn(|| {
                 let mut local = Totals::default();
+                watch_set_meta(meta_for(None), sweep);
                 loop {
                     let idx = next.fetch_add(1, Ordering::SeqCst);
                     if idx >= total_runs || idx >= stop_at.load(Ordering::SeqCst) {
@@ -215,6 +357,7 @@ pub fn check(s: &dyn Scenario, opts: &CheckOpts) -> i32 {
                     }
                     let kind = kind_of(s, opts.tier, idx);
                     let tape = Tape::generate(tape::mix(&[opts.seed, salt, idx]));
+                    watch_set_run_index(Some(idx));
                     match run_guarded(s, kind, opts.tier, tape, false) {
                         Err(msg) => {
                             *harness_err.lock().unwrap() = Some(format!("run {}: {}", idx, msg));
@@ -296,12 +439,14 @@ pub fn check(s: &dyn Scenario, opts: &CheckOpts) -> i32 {
         sample_idx.push(sweep + random / 2);
         sample_idx.push(sweep + random - 1);
     }
+    watch_set_meta(meta_for(None), sweep);
     for idx in sample_idx {
         if idx >= total_runs {
             continue;
         }
         let kind = kind_of(s, opts.tier, idx);
         let tape = Tape::generate(tape::mix(&[opts.seed, salt, idx]));
+        watch_set_run_index(Some(idx));
         if let Ok((out, rec)) = run_guarded(s, kind, opts.tier, tape, true) {
             if out.log.is_empty() {
                 continue;
@@ -333,6 +478,22 @@ pub fn check(s: &dyn Scenario, opts: &CheckOpts) -> i32 {
         );
         println!("shrinking ({} tape entries) ...", first.tape.len());
         let ident = first.violation.ident();
+        {
+            // Should a shrink candidate hang in wall-clock time, the watchdog
+            // points to this (unminimised) replay file.
+            let path = dir.join("replays").join(format!("{}-{}-{}.json", s.id(), opts.seed, first.idx));
+            let _ = std::fs::create_dir_all(dir.join("replays"));
+            let doc = json!({
+                "property": s.id(), "scenario": s.name(), "seed": opts.seed, "tier": opts.tier.name(),
+                "run_index": first.idx,
+                "sweep_index": match kind { RunKind::Sweep(i) => json!(i), RunKind::Random => Value::Null },
+                "tape": first.tape,
+                "violation": { "class": first.violation.class, "key": first.violation.key, "detail": first.violation.detail },
+                "log": [],
+            });
+            let _ = std::fs::write(&path, serde_json::to_string_pretty(&doc).unwrap());
+            watch_set_meta(meta_for(Some(path)), sweep);
+        }
         let shrunk = tape::shrink(
             first.tape.clone(),
             |cand| {
@@ -497,13 +658,32 @@ pub fn replay(scenarios: &[Box<dyn Scenario>], path: &Path) -> i32 {
         }
     };
     let tape: Vec<u64> = doc["tape"].as_array().map(|a| a.iter().filter_map(|v| v.as_u64()).collect()).unwrap_or_default();
+    let from_seed = doc["from_seed"].as_bool().unwrap_or(false);
+    start_watchdog();
+    watch_set_meta(
+        WatchMeta {
+            property: s.id().to_string(),
+            scenario: s.name().to_string(),
+            seed: doc["seed"].as_u64().unwrap_or(0),
+            tier: if doc["tier"].as_str() == Some("thorough") { "thorough" } else { "quick" },
+            fallback: Some(path.to_path_buf()),
+        },
+        0,
+    );
     let kind = match doc["sweep_index"].as_u64() {
         Some(i) => RunKind::Sweep(i),
         None => RunKind::Random,
     };
     let tier = if doc["tier"].as_str() == Some("thorough") { Tier::Thorough } else { Tier::Quick };
     println!("replaying {} ({}) {:?} tier={} with {} tape entries", s.id(), s.name(), kind, tier.name(), tape.len());
-    match run_guarded(s.as_ref(), kind, tier, Tape::replay(tape), true) {
+    let tape = if from_seed {
+        let idx = doc["run_index"].as_u64().unwrap_or(0);
+        println!("(the tape is regenerated from seed {} and run index {})", doc["seed"].as_u64().unwrap_or(0), idx);
+        Tape::generate(tape::mix(&[doc["seed"].as_u64().unwrap_or(0), scenario_salt(s.as_ref()), idx]))
+    } else {
+        Tape::replay(tape)
+    };
+    match run_guarded(s.as_ref(), kind, tier, tape, true) {
         Err(msg) => {
             eprintln!("HARNESS ERROR: {}", msg);
             2
